@@ -166,11 +166,13 @@ func main() {
 			f := OpenFile(json_file)
 			Truncate(f)
 			f.WriteString(results.Json())
+			f.Close()
 		}
 		if len(fjson_file) != 0 {
 			f := OpenFile(fjson_file)
 			Truncate(f)
 			f.WriteString(results.FormattedJson())
+			f.Close()
 		}
 		if out_json {
 			fmt.Println(results.Json())
@@ -183,7 +185,7 @@ func main() {
 }
 
 func OpenFile(filename string) *os.File {
-	f, err := os.OpenFile(filename, os.O_CREATE, os.ModeAppend)
+	f, err := os.OpenFile(filename, os.O_RDWR|os.O_CREATE|os.O_TRUNC, 0666)
 	if err != nil {
 		panic(err)
 	}
